@@ -601,9 +601,20 @@ def _regrid_obj(repo, cname):
     o = Obj(cls=c, label=cname)
     ing = Obj(label="ingrid", fields={"data_points": Sym("IN_POINTS"), "order": Sym("IN_ORDER"), "data_shape": Sym("IN_SHAPE"), "dim": 2})
     outg = Obj(label="outgrid", fields={"data_points": Sym("OUT_POINTS"), "order": Sym("OUT_ORDER"), "data_shape": Sym("OUT_SHAPE"), "dim": 2})
-    o.fields.update(input_grid=ing, output_grid=outg, input_mask=Sym("IN_MASK"), output_mask=Sym("OUT_MASK"), _out_mask_checked=True,
+    _seed_after_exchange(repo, c, o, {"in_grid": ing, "out_grid": outg, "out_mask": Sym("OUT_MASK"), "tree_options": None})
+    o.fields.update(input_grid=ing, output_grid=outg, input_mask=Sym("IN_MASK"), output_mask=Sym("OUT_MASK"),
                     tree_options=None, ids=Sym("IDS"), logger=Logger(label="logger"), transformer=None)
     return o
+
+
+def _seed_after_exchange(repo, c, o, params):
+    """The object as its constructors leave it, with every one-shot flag the constructors initialise to False raised: the state
+    after the first info exchange (grids known, output mask checked).  No flag is named."""
+    from ..absbase import FinamInterp, seed_from_init
+    seed_from_init(FinamInterp(repo), c, o, params)
+    for k, v in list(o.fields.items()):
+        if v is False:
+            o.fields[k] = True
 
 
 def r35_regrid(repo, sink):
@@ -873,7 +884,11 @@ class _InfoInterp(FinamInterp):
 def _info_obj(repo, grid, mask, units):
     c = repo.cls("Info")
     o = Obj(cls=c, label="Info")
-    o.fields.update(_grid=grid, _mask=mask, _time=None, meta={"units": units}, units=units)
+    from ..absbase import set_backed
+    o.fields.update(meta={"units": units}, units=units)
+    for prop, v in (("grid", grid), ("mask", mask), ("time", None)):
+        set_backed(repo, o, prop, v)
+    o.given = {"grid": grid, "mask": mask}
     return o
 
 
@@ -895,7 +910,7 @@ def r15_fields(repo, sink):
             continue
         for b in it.mask_calls:
             pairing += 1
-            want = {"this": me.fields["_mask"], "incoming": inc.fields["_mask"], "this_grid": me.fields["_grid"], "incoming_grid": inc.fields["_grid"]}
+            want = {"this": me.given["mask"], "incoming": inc.given["mask"], "this_grid": me.given["grid"], "incoming_grid": inc.given["grid"]}
             for k, v in want.items():
                 if b.get(k) is not v and b.get(k) != v:
                     pair_bad = pair_bad or f"masks_compatible is called with {k}={b.get(k)!r} where the {k.replace('_', ' ')} is {v!r}"
@@ -1512,8 +1527,9 @@ def r16u_delivered_units(repo, sink):
         req = _stub(u_req, Sym("G_req"), {"extra": Sym("x_req")}, "req")
         dlv = _stub(u_in, Sym("G_in"), {"extra": Sym("x_in")}, "dlv")
         me = Obj(cls=k, label=k.name)
-        me.fields.update(logger=Logger(label="logger"), _per_time=True, grid=Sym("G_req"), input_grid=None, output_grid=None, output_mask=None,
-                         input_mask=None, downstream_mask=None, _is_initialized=True, transformer=None, input_meta=None, func=None)
+        _seed_after_exchange(repo, k, me, {"per_time": True, "grid": Sym("G_req"), "func": None})
+        me.fields.update(logger=Logger(label="logger"), grid=Sym("G_req"), input_grid=None, output_grid=None, output_mask=None,
+                         input_mask=None, downstream_mask=None, transformer=None, input_meta=None, func=None)
         it = _GetInfoInterp(repo, dlv)
         try:
             out = it.run(f, [req], self_obj=me)
